@@ -4,6 +4,7 @@ import (
 	"bytes"
 	"fmt"
 	"image"
+	"io"
 	"reflect"
 
 	webp "github.com/deepteams/webp"
@@ -26,7 +27,7 @@ func imgDigest(m image.Image) string {
 
 func runC17(c *ev.Ctx) {
 	c.Rule = "for each valid still file F (lossy 1/2/4/8 partitions, lossless, lossy+compressed/raw alpha, extended with ICC before and EXIF/XMP after the image, odd payloads, " +
-		"mux-assembled, hand-assembled with unknown chunks, libwebp-written, synthesized VP8/VP8L/ALPH) EVERY prefix length 0..len-1 is fed to Decode, DecodeConfig and GetFeatures; " +
+		"mux-assembled, hand-assembled with unknown chunks, libwebp-written, synthesized VP8/VP8L/ALPH) EVERY prefix length 0..len-1 is fed to Decode (from a bytes.Reader and, rotating, from a reader without Len(), from short reads of 1..7 bytes and through image.Decode), DecodeConfig and GetFeatures; " +
 		"a prefix result must be an error or equal the complete file's result; distinct = distinct files (by content) whose complete decode succeeds; evaluations = prefixes"
 	r := rng(c, 0)
 	files := stillCorpus(r, c.N(600, 40000), c.N(48, 64))
@@ -63,7 +64,7 @@ func c17One(c *ev.Ctx, cs ev.Case) {
 	}
 	c.Distinct(ev.Sum(f.Data))
 	c.Count("files_"+f.Name, 1)
-	okDecode, okCfg, okFeat := 0, 0, 0
+	okDecode, okCfg, okFeat, okVia := 0, 0, 0, 0
 	sparse := len(f.Data) > 24000
 	for n := 0; n < len(f.Data); n++ {
 		if sparse && n < len(f.Data)-4096 && n%97 != 0 && n > 64 {
@@ -84,8 +85,31 @@ func c17One(c *ev.Ctx, cs ev.Case) {
 					fmt.Sprintf("Decode(F[:%d]) of a %d-byte file succeeded with %s, complete file gives %s", n, len(f.Data), d, fullD), rep(n))
 			}
 		}
+		// the same prefix delivered the way files and network bodies arrive: a reader without Len()
+		// (whole-buffer reads, short reads of 1..7 bytes) and through image.Decode's sniffing wrapper
+		via := []string{"plain-reader", "short-reads", "image.Decode"}[n%3]
+		var m2 image.Image
+		var e2 error
+		if pn := ev.Guard(func() {
+			switch via {
+			case "plain-reader":
+				m2, e2 = webp.Decode(plainReader{bytes.NewReader(p)})
+			case "short-reads":
+				m2, e2 = webp.Decode(&shortReader{r: bytes.NewReader(p), k: 1 + n%7})
+			default:
+				m2, _, e2 = image.Decode(plainReader{bytes.NewReader(p)})
+			}
+		}); pn != "" {
+			c.Violate(cs, "panic", map[string]string{"kind": f.Name, "entry": "Decode", "via": via}, fmt.Sprintf("prefix %d via %s: %s", n, via, pn), rep(n))
+		} else if e2 == nil {
+			okVia++
+			if d := imgDigest(m2); d != fullD {
+				c.Violate(cs, "truncated-decodes-differently", map[string]string{"kind": f.Name, "tail": fmt.Sprint(len(f.Data) - n), "via": via},
+					fmt.Sprintf("Decode(F[:%d]) via %s of a %d-byte file succeeded with %s, complete file gives %s", n, via, len(f.Data), d, fullD), rep(n))
+			}
+		}
 		var cfg image.Config
-		if pn := ev.Guard(func() { cfg, e = webp.DecodeConfig(bytes.NewReader(p)) }); pn != "" {
+		if pn := ev.Guard(func() { cfg, e = webp.DecodeConfig(plainOrBytes(p, n)) }); pn != "" {
 			c.Violate(cs, "panic", map[string]string{"kind": f.Name, "entry": "DecodeConfig"}, fmt.Sprintf("prefix %d: %s", n, pn), rep(n))
 		} else if e == nil {
 			okCfg++
@@ -94,7 +118,7 @@ func c17One(c *ev.Ctx, cs ev.Case) {
 			}
 		}
 		var ft *webp.Features
-		if pn := ev.Guard(func() { ft, e = webp.GetFeatures(bytes.NewReader(p)) }); pn != "" {
+		if pn := ev.Guard(func() { ft, e = webp.GetFeatures(plainOrBytes(p, n+1)) }); pn != "" {
 			c.Violate(cs, "panic", map[string]string{"kind": f.Name, "entry": "GetFeatures"}, fmt.Sprintf("prefix %d: %s", n, pn), rep(n))
 		} else if e == nil {
 			okFeat++
@@ -104,9 +128,35 @@ func c17One(c *ev.Ctx, cs ev.Case) {
 		}
 	}
 	c.Count("prefixes_where_Decode_succeeds", int64(okDecode))
+	c.Count("prefixes_where_Decode_succeeds_via_plain_readers", int64(okVia))
 	c.Count("prefixes_where_DecodeConfig_succeeds", int64(okCfg))
 	c.Count("prefixes_where_GetFeatures_succeeds", int64(okFeat))
 	if cs.Idx%25 == 0 {
 		c.Sample(map[string]any{"file": cs.Desc, "prefixes": len(f.Data), "decode_ok_prefixes": okDecode, "config_ok_prefixes": okCfg, "features_ok_prefixes": okFeat})
 	}
+}
+
+// plainReader hides every method of the underlying reader except Read (no Len, no Seek).
+type plainReader struct{ r io.Reader }
+
+func (p plainReader) Read(b []byte) (int, error) { return p.r.Read(b) }
+
+// shortReader returns at most k bytes per Read.
+type shortReader struct {
+	r io.Reader
+	k int
+}
+
+func (s *shortReader) Read(b []byte) (int, error) {
+	if len(b) > s.k {
+		b = b[:s.k]
+	}
+	return s.r.Read(b)
+}
+
+func plainOrBytes(p []byte, n int) io.Reader {
+	if n%2 == 0 {
+		return bytes.NewReader(p)
+	}
+	return plainReader{bytes.NewReader(p)}
 }
